@@ -287,6 +287,31 @@ def add_slotg_stage(ctx, res, focus):
     return res
 
 
+def add_sweepl_stage(ctx, res, focus):
+    """the single-list component with EXACT destruction timing (checks/sweepl.py, model lean/Sigc/SweepL.lean,
+    docs/SWEEPL.md): owner functors whose destructors disconnect other slots of the same list at the moment the library
+    destroys them — inside an erase, a sweep, a clear — together with connected empty slots, the combination the program
+    mode `owners` of the main language keeps apart; merged into the property's correspondence"""
+    try:
+        import sweepl
+        res.setdefault("distribution", {})
+        res.setdefault("traces_validated_against_impl", 0)
+        sub = sweepl.stage(ctx, focus)
+        res["evaluations"] += sub.get("evaluations", 0)
+        res["distinct_nontrivial"] += sub.get("distinct_nontrivial", 0)
+        res["traces_validated_against_impl"] = res.get("traces_validated_against_impl", 0) + sub.get("traces_validated_against_impl", 0)
+        res["distribution"]["single_list_exact_destruction_SweepL"] = {
+            "focus": focus, "evaluations": sub.get("evaluations", 0), "distinct_nontrivial": sub.get("distinct_nontrivial", 0),
+            "rule": sub.get("rule", ""), "distribution": sub.get("distribution", {})}
+        res["samples"] = res.get("samples", []) + sub.get("samples", [])[:1]
+        res["monitor_failures"] += sub.get("monitor_failures", [])
+        res["disagreements"] += sub.get("disagreements", [])
+        res["infra_errors"] += sub.get("infra_errors", [])
+    except Exception as e:
+        res["infra_errors"].append("SweepL stage crashed: %r" % (e,))
+    return res
+
+
 def search(ctx, mod, disagreements):
     """mutate around diverging programs looking for one whose implementation trace violates the spec"""
     exe, log = runtime.build_main_harness()
